@@ -12,6 +12,10 @@
     type_tools/normalize_type.py    normalize_type = lru_cache(128) keyed by hint `==`
     morphing/*_provider.py          every `mediator.cached_call(` site: which arguments form the key (`Key`),
                                     and what the produced closure depends on (`build`)
+    provider/facade/provider.py     bound / bound_by_any: a recipe entry is guarded by 0, 1 or several predicates
+    provider/loc_stack_filtering.py OrLocStackChecker (`any`), ExactTypeLSC / ExactOriginLSC (equality of norms)
+    morphing/enum_provider.py       EnumNameProvider, EnumExactValueProvider (AnyEnumLSC; loaders / dumpers)
+    morphing/facade/provider.py     loader, dumper, enum_by_name(*preds), enum_by_exact_value(*preds)
 
   Python equality is the crux: a dict compares keys with `==`.  Hints, literal
   values and key tuples therefore come with `pyEq`, not structural equality.
@@ -117,6 +121,7 @@ inductive ClsKind where
   | noneType
   | model (fields : List Field)
   | newtype (sup : Hint)
+  | enum (members : List (String × LitVal))   -- a plain `Enum` class: (member name, member value), no aliases
   | unknown                 -- a class no provider accepts: the request fails
   deriving Repr, Inhabited
 
@@ -208,6 +213,10 @@ inductive Clo where
   | convId
   | convModel (cid : Nat) (fields : CloList)
   | convSeq (origin : Nat) (elem : Clo)
+  | enumNameL (cid : Nat)              -- EnumNameProvider._make_loader(enum): `mapping[data]`, name -> member
+  | enumNameD (cid : Nat)              -- EnumNameProvider._make_dumper(enum): member -> name
+  | enumExactL (cid : Nat)             -- EnumExactValueProvider._make_loader(enum): `value_to_member[data]`
+  | enumExactD (cid : Nat)             -- EnumExactValueProvider._make_dumper(enum): member -> value
 inductive CloList where
   | nil
   | cons (tag : Nat) (name : String) (c : Clo) (t : CloList)
@@ -269,6 +278,12 @@ inductive Key where
   | shape (cid : Nat)                                                  -- ShapeProvider._get_shape(tp)
   | modelL (cid : Nat) (strict : Bool) (fields : List (String × Clo))  -- ModelLoaderProvider._make_loader(shape=, field_loaders=, strict_coercion=, ...)
   | modelD (cid : Nat) (fields : List (String × Clo))                  -- ModelDumperProvider._make_dumper(shape=, fields_dumpers=, ...)
+  -- the bound method `self._make_loader` is part of the key: `pid` names the provider object (entry `pid` of the
+  -- instance recipe; for the exact-value provider `none` is the EnumExactValueProvider of the class recipe)
+  | enumNameL (pid : Nat) (cid : Nat)                                  -- EnumNameProvider._make_loader(enum=request.last_loc.type)
+  | enumNameD (pid : Nat) (cid : Nat)                                  -- EnumNameProvider._make_dumper(enum=enum)
+  | enumExactL (pid : Option Nat) (cid : Nat)                          -- EnumExactValueProvider._make_loader(enum=request.last_loc.type)
+  | enumExactD (pid : Option Nat) (cid : Nat)                          -- EnumExactValueProvider._make_dumper(enum=request.last_loc.type)
   deriving DecidableEq, Repr, Inhabited
 
 def listPyEq : List LitVal → List LitVal → Bool
@@ -310,6 +325,10 @@ def build : Key → Clo
   | .shape cid => .shapeTok cid
   | .modelL cid strict fs => .modelL cid strict (tagged fs)
   | .modelD cid fs => .modelD cid (tagged fs)
+  | .enumNameL _ cid => .enumNameL cid
+  | .enumNameD _ cid => .enumNameD cid
+  | .enumExactL _ cid => .enumExactL cid
+  | .enumExactD _ cid => .enumExactD cid
 
 /-! ### The retort-wide call cache and one request -/
 
@@ -323,11 +342,20 @@ inductive Dir where
   | load | dump
   deriving DecidableEq, Repr, Inhabited
 
-/-- `loader(pred, func)` / `dumper(pred, func)` in the instance recipe. -/
+/-- the provider a recipe entry wraps -/
+inductive Prov where
+  | user (dir : Dir) (fid : Nat)   -- `loader(pred, func)` / `dumper(pred, func)`: ValueProvider(LoaderRequest | DumperRequest, func)
+  | enumByName                     -- `enum_by_name(*preds)`: EnumNameProvider (no name_style, no map)
+  | enumByExactValue               -- `enum_by_exact_value(*preds)`: EnumExactValueProvider
+  deriving DecidableEq, Repr, Inhabited
+
+/-- One entry of the instance recipe: a provider guarded by predicates.
+    `targets` are type predicates.  `loader(h, f)` has one; `loader(P[h1, h2], f)` several (`LocStackPattern.__getitem__`
+    of a tuple builds an `OrLocStackChecker`); `enum_by_name(*preds)` goes through `bound_by_any`: none (the bare
+    provider), one (its checker) or several (`OrLocStackChecker` of the checkers). -/
 structure RecipeEntry where
-  dir : Dir
-  target : Hint
-  fid : Nat
+  prov : Prov
+  targets : List Hint
   deriving DecidableEq, Repr, Inhabited
 
 structure Cfg where
@@ -361,10 +389,50 @@ def cached (M : Mode) (k : Key) (s : RS) : Option Clo × RS :=
   let r := cachedCall M k s.call
   (some r.1, { s with call := r.2 })
 
-/-- first provider of the instance recipe whose predicate accepts the request
-    (`ExactTypeLSC`: equality of norms; `ExactOriginLSC` for classes) -/
-def userMatch (M : Mode) (U : Univ) (cfg : Cfg) (dir : Dir) (src : Hint) : Option Nat :=
-  (cfg.recipe.find? (fun e => e.dir == dir && e.target.canon M U == src.canon M U)).map (·.fid)
+/-- what the instance recipe answers a request with -/
+inductive Served where
+  | user (fid : Nat)
+  | enumName (pid : Nat) (cid : Nat)
+  | enumExact (pid : Nat) (cid : Nat)
+  deriving DecidableEq, Repr, Inhabited
+
+/-- `bound_by_any(preds, provider)` / `bound(pred, provider)` on the norm `n` of the requested type:
+    no predicate - the bare provider; otherwise `any` of the checkers (a single checker is the `any` of one), each
+    `ExactTypeLSC` (equality of norms) resp. `ExactOriginLSC` (for classes).  The checkers are a *list*: they are
+    consulted afresh, all of them, for every request. -/
+def predsAccept (M : Mode) (U : Univ) (targets : List Hint) (n : Hint) : Bool :=
+  match targets with
+  | [] => true
+  | ts => ts.any fun t => t.canon M U == n
+
+/-- `AnyEnumLSC` (`@for_predicate` of BaseEnumProvider): the origin of the norm is an `Enum` class -/
+def enumUid (U : Univ) (n : Hint) : Option Nat :=
+  match n with
+  | .cls u => match U.kind u with | .enum _ => some u | _ => none
+  | _ => none
+
+/-- the request checker of the wrapped provider itself, and what it hands out: a ValueProvider serves requests of its
+    own direction, the enum providers serve `Enum` classes (`LocStackBoundingProvider._process_request_checker`:
+    `bound & own`) -/
+def serve (U : Univ) (e : RecipeEntry) (i : Nat) (dir : Dir) (n : Hint) : Option Served :=
+  match e.prov with
+  | .user d fid => if d == dir then some (.user fid) else none
+  | .enumByName => (enumUid U n).map (Served.enumName i)
+  | .enumByExactValue => (enumUid U n).map (Served.enumExact i)
+
+/-- providers are tried in recipe order; `i` is the position of the head of the list in the recipe -/
+def matchFrom (M : Mode) (U : Univ) (dir : Dir) (n : Hint) : Nat → List RecipeEntry → Option Served
+  | _, [] => none
+  | i, e :: r =>
+    if predsAccept M U e.targets n then
+      match serve U e i dir n with
+      | some s => some s
+      | none => matchFrom M U dir n (i + 1) r
+    else matchFrom M U dir n (i + 1) r
+
+/-- first provider of the instance recipe whose predicates accept the request and that serves it -/
+def userMatch (M : Mode) (U : Univ) (cfg : Cfg) (dir : Dir) (src : Hint) : Option Served :=
+  matchFrom M U dir (src.canon M U) 0 cfg.recipe
 
 def replaceTop (t : Hint) : List Loc → List Loc
   | [] => []
@@ -392,11 +460,17 @@ def bindAll (r : List (Option Clo) × RS) (k : List Clo → RS → Res) : Res :=
     with; `rec` sends a sub-request. -/
 def routeSrc (M : Mode) (U : Univ) (cfg : Cfg) (dir : Dir) (rec : Step) (σ : List Loc) (src : Hint) (s : RS) : Res :=
   match userMatch M U cfg dir src with
-  | some fid => (some (.user fid), s)
+  | some (.user fid) => (some (.user fid), s)
+  | some (.enumName pid cid) =>
+    cached M (match dir with | .load => .enumNameL pid cid | .dump => .enumNameD pid cid) s
+  | some (.enumExact pid cid) =>
+    cached M (match dir with | .load => .enumExactL (some pid) cid | .dump => .enumExactD (some pid) cid) s
   | none =>
   match src with
   | .cls u =>
     match U.kind u with
+    | .enum _ =>                                                       -- EnumExactValueProvider of the class recipe
+      cached M (match dir with | .load => .enumExactL none u | .dump => .enumExactD none u) s
     | .scalar sc =>
       match dir with
       | .load => if sc == .bytes then cached M .bytesL s else cached M (.scalarL sc cfg.strict) s
